@@ -139,7 +139,10 @@ func (s *Type) Publish(pkt *mqttp.Publish, grantedQoS mqttp.QosType, ops mqttp.S
 
 	var err error
 
-	if len(ids) > 0 {
+	// only MQTT 5.0 can carry them: a kept session may have been resumed by a client of an earlier
+	// version (see container.subscriber), its subscriptions still hold the identifiers they were made
+	// with, and a property that cannot be set must not cost the session the message
+	if len(ids) > 0 && s.Version >= mqttp.ProtocolV50 {
 		if err = pkt.PropertySet(mqttp.PropertySubscriptionIdentifier, ids); err != nil {
 			return err
 		}
